@@ -32,6 +32,10 @@ def parseNet (s : String) : Tree.Net :=
 def showNet : Tree.Net → String
   | .mainnet => "mainnet" | .testnet => "testnet" | .regtest => "regtest"
 
+/-- the network a spelling NAMES (case-insensitively): the specification of the conversion -/
+def parseNetByName (s : String) : Tree.Net :=
+  if s.toLower == "mainnet" then .mainnet else if s.toLower == "testnet" then .testnet else .regtest
+
 /-- a network as spelled in a request (`Regtest` / `regtest` …), converted with the table that the
     translator regenerates from `impl From<NetworkInRequest> for Network` -/
 def parseNetInRequest (s : String) : Tree.Net :=
